@@ -111,3 +111,29 @@ Fixpoint ssearch (depth_fuel : nat) (scan_fuel : nat) (buffer pattern : list byt
       ret (match r' with Some x => Some x | None => Some res end)
     end
   end.
+
+(* Reader::get_xref_start(buffer): the last "%%EOF" of the last 512 bytes, then the last "startxref" from 25 bytes before
+   it; `buffer.len() - cmp::min(buffer.len(), 512)`, `eof_pos - 25` (guarded by `eof_pos > 25`) and `&buffer[xref_pos..]`
+   (guarded by `xref_pos <= buffer.len()`) are the sites.  The fuels: one activation per byte of the window. *)
+Definition K_EOF : bytes := Eval cbv in bs "%%EOF".
+Definition K_STARTXREF : bytes := Eval cbv in bs "startxref".
+Definition XREF_WINDOW : N := 512.
+Definition XREF_BACK : N := 25.
+Definition SCAN_FUEL (buffer pattern : bytes) : nat := S (N.to_nat ((blen buffer + 1) * (blen pattern + 1))).
+Definition sget_xref_start (buffer : bytes) : M N :=
+  let len := blen buffer in
+  seek_pos <- ck_sub len (N.min len XREF_WINDOW) ;;
+  r <- ssearch (S (N.to_nat XREF_WINDOW)) (SCAN_FUEL buffer K_EOF) buffer K_EOF seek_pos ;;
+  match r with
+  | None => fail
+  | Some eof_pos =>
+    if XREF_BACK <? eof_pos then
+      start <- ck_sub eof_pos XREF_BACK ;;
+      r2 <- ssearch (S (N.to_nat (XREF_WINDOW + XREF_BACK))) (SCAN_FUEL buffer K_STARTXREF) buffer K_STARTXREF start ;;
+      match r2 with
+      | None => fail
+      | Some xref_pos =>
+        if xref_pos <=? len then (_ <- slice_from buffer xref_pos ;; ret xref_pos) else fail
+      end
+    else fail
+  end.
